@@ -276,3 +276,7 @@ impl<'a> Message<'a> {
         })
     }
 }
+
+#[cfg(feature = "pendulum_project_ntpd_rs_verif")]
+#[path = "/verif/hooks/statime-wire/messages_mod.rs"]
+pub mod vh_messages_mod;
